@@ -249,12 +249,17 @@ def cmd_check(tier, prop):
         if prop == "C12":
             from unytsim import regsim
 
-            total, nquick = regsim.SWEEP_TOTAL, 300
+            total, nquick = regsim.SWEEP_ALL, 300
         else:
             from unytsim import c18sim
 
             total, nquick = c18sim.sweep_total(), 5000
-        if tier == "quick":
+        if tier == "quick" and prop == "C12":
+            # one-edit catalogue and two-edit catalogue sampled separately, so that the first keeps its share
+            rs = random.Random(f"{seed}:{prop}:sweep")
+            idxs = sorted(rs.sample(range(regsim.SWEEP_TOTAL), nquick))
+            idxs += sorted(rs.sample(range(regsim.SWEEP_TOTAL, regsim.SWEEP_ALL), 200))
+        elif tier == "quick":
             idxs = sorted(random.Random(f"{seed}:{prop}:sweep").sample(range(total), nquick))
         else:
             idxs = list(range(total))
